@@ -22,7 +22,7 @@ var pureMethodNames = map[string]bool{
 	"PathValue": true, "Context": true, "Error": true, "Encode": true, "UTC": true, "Round": true,
 	"Add": true, "Seconds": true, "SelectAttrValue": true, "Hash": true, "Cookie": true,
 	"FormValue": true, "Cookies": true, "ChildElements": true, "Overhead": true, "Size": true,
-	"GetAttributes": true, "Index": true, "Before": true, "After": true, "Equal": true, "IsZero": true,
+	"GetAttributes": true, "Index": true, "EncodeToString": true, "Before": true, "After": true, "Equal": true, "IsZero": true,
 	"Cmp": true, "Sub": true,
 }
 
@@ -31,7 +31,7 @@ var pureFuncs = map[string]bool{
 	"strings.HasPrefix": true, "strings.HasSuffix": true, "strings.Contains": true, "strings.EqualFold": true,
 	"strings.ToLower": true, "strings.ToUpper": true, "strings.Join": true,
 	"net/url.QueryEscape": true, "fmt.Sprintf": true, "bytes.Equal": true,
-	"time.Duration": true,
+	"time.Duration": true, "encoding/hex.EncodeToString": true,
 }
 
 // isPureModuleFunc: a module function with no side effects (no stores to memory it did not allocate, no
@@ -285,6 +285,20 @@ func (fc *FuncCtx) ap0(v ssa.Value) string {
 	case *ssa.Lookup:
 		return fc.AP(x.X) + "[" + fc.AP(x.Index) + "]"
 	case *ssa.Slice:
+		if al, ok := x.X.(*ssa.Alloc); ok && al.Comment == "varargs" && x.Low == nil && x.High == nil {
+			// the argument list of a variadic call: render the stored elements in order
+			var parts []string
+			for _, rf := range *al.Referrers() {
+				if ia, ok := rf.(*ssa.IndexAddr); ok {
+					for _, r2 := range *ia.Referrers() {
+						if st, ok := r2.(*ssa.Store); ok {
+							parts = append(parts, fc.AP(st.Val))
+						}
+					}
+				}
+			}
+			return "[" + strings.Join(parts, ",") + "]"
+		}
 		lo, hi := "", ""
 		if x.Low != nil {
 			lo = fc.AP(x.Low)
@@ -421,7 +435,7 @@ func (fc *FuncCtx) callAP(x *ssa.Call) string {
 		return fc.uniq(bi.Name(), x)
 	}
 	if c.IsInvoke() {
-		if pureMethodNames[c.Method.Name()] {
+		if pureMethodNames[c.Method.Name()] && !returnsError(c.Signature()) {
 			return fc.AP(c.Value) + "." + c.Method.Name() + "(" + strings.Join(args, ",") + ")"
 		}
 		return fc.uniq("r:"+c.Method.Name(), x)
@@ -577,4 +591,13 @@ func (fc *FuncCtx) inlinedResultAP(c *ssa.Call, idx int) string {
 		ap = s
 	}
 	return ap
+}
+
+func returnsError(sig *types.Signature) bool {
+	for i := 0; i < sig.Results().Len(); i++ {
+		if types.TypeString(sig.Results().At(i).Type(), nil) == "error" {
+			return true
+		}
+	}
+	return false
 }
